@@ -1023,6 +1023,13 @@ class Interp:
                 return v.fields[0]
             if isinstance(v, Agg) and v.variant in ("Err", "None"):
                 raise Panic("unwrap of %s" % v.variant)
+        if name in ("common_traits::UnsignedInt::to_signed", "common_traits::SignedInt::to_unsigned") and isinstance(args[0], AI):
+            # contract of the dependency: reinterpretation of the same bits in the same-width type of the other signedness
+            x = args[0]
+            if x.ty not in TY or x.ty == "bool":
+                raise Unsupported(name)
+            dst = ("i" if name.endswith("to_signed") else "u") + x.ty[1:]
+            return self.cast(x, dst)
         # operator traits on integers (generic code): std::ops::Shl::shl(a, b) etc.
         m = re.match(r"std::ops::(Shl|Shr|BitAnd|BitOr|BitXor|Add|Sub|Mul|Div|Rem)::(\w+)$", name)
         if m and len(args) == 2 and isinstance(args[0], AI) and isinstance(args[1], AI):
